@@ -16,7 +16,7 @@ MANIFEST = {
 }
 THEOREMS = [
     "C08_signer_rule", "C08_signer_rule_weak", "C08_every_instruction_classified", "C08_user_ops", "C08_receivership_only_withdraw_repay",
-    "C08_owner_ops", "C08_admin_roles", "C08_fee_admin", "C08_bankruptcy", "C08_end_liquidation",
+    "C08_owner_ops", "C08_admin_roles", "C08_clone_emode", "C08_fee_admin", "C08_bankruptcy", "C08_end_liquidation",
     "C08_typed_accounts", "C08_group_binding", "C08_vault_binding", "C08_fee_state_binding", "C08_liquidation_record_binding",
     "C08_foreign_group_rejected",
 ]
@@ -57,6 +57,7 @@ MARGINFI_TYPES = {"MarginfiGroup", "Bank", "MarginfiAccount", "FeeState", "Liqui
 # oracle-side specification (independent of the Coq Spec.v): who may sign for the role field of an instruction
 ROLE_FIELD = {}
 ENTITLED = {}
+ROLE_WALLETS_A = {"adm", "emo", "cur", "lim", "emi", "met", "rsk"}
 
 
 def _spec():
@@ -107,18 +108,23 @@ def _spec():
 _spec()
 
 
-def entitled(ix, who, variant, acct_authority):
+def entitled(ix, who, variant, acct_authority, fam="A"):
+    """may `who` sign for the role field of `ix`? `fam`: the group (A / B) the transaction's objects belong to —
+    every role of the foreign group gB is held by admB"""
     e = ENTITLED.get(ix)
     if e is None:
         return True     # permissionless
+    admin = "adm" if fam == "A" else "admB"
     if isinstance(e, set):
+        if e <= ROLE_WALLETS_A and fam == "B":
+            return who == "admB"
         return who in e
     if e == "owner":
         return who == acct_authority
     if "R" in variant and e == "user-recv":
         return not ("F" in variant and who == acct_authority)
     if "F" in variant:
-        return who == "adm"
+        return who == admin
     return who == acct_authority
 
 
@@ -323,7 +329,6 @@ def suites(rng, tier):
 
 GROUP_A = {"gA", "bk1", "bk2", "bk3", "bkE", "bkT", "bkSt", "bkK0", "bkK", "bkD0", "bkD", "bkDh", "bkS0", "bkS", "accA", "accL", "accU", "accBad", "accE", "accT", "ssA"}
 GROUP_B = {"gB", "bkB1", "bkB2", "accB", "accBE", "ssB"}
-ROLE_WALLETS_A = {"adm", "emo", "cur", "lim", "emi", "met", "rsk"}
 INVALID_OBJECT = ("new:wrong", "PROG:stranger")
 
 
@@ -394,7 +399,9 @@ def must_reject(k):
         acct = objs.get(ACCT_FIELD.get(ix, "marginfi_account"), "").lstrip("~")
         variant = ("F" if any(t.startswith("aflag:") and t.endswith(":64:1") for t in tw) else "") + \
                   ("R" if any(t.startswith("aflag:") and t.endswith(":16:1") for t in tw) else "")
-        if not entitled(ix, objs[role], variant or "N", AUTH_OF.get(acct)):
+        fams = {family(o) for _, o in fields} - {None}
+        fam = "B" if fams == {"B"} else "A"
+        if not entitled(ix, objs[role], variant or "N", AUTH_OF.get(acct), fam):
             return f"signer {objs[role]} is not entitled (world {variant or 'N'})"
     return None
 
